@@ -81,6 +81,7 @@ type Client struct {
 	// the harness calls StepRescan, so that new blocks and reorgs can be
 	// announced (through Deliver) WHILE the rescan is running, as with the
 	// real bitcoind client whose rescan runs in its own goroutine.
+	lastDisc    []*Block // recently emitted genuine disconnects (for repeated delivery)
 	AsyncRescan bool
 	// BtcdStyleRescan: the rescan reports only the relevant transactions of
 	// each block and RescanFinished, no per-block FilteredBlockConnected /
@@ -620,7 +621,34 @@ func (c *Client) appendDisc(b *Block) []interface{} {
 	if !c.notifyBlocks {
 		return c.out
 	}
+	c.lastDisc = append(c.lastDisc, b)
+	if len(c.lastDisc) > 16 {
+		c.lastDisc = c.lastDisc[1:]
+	}
 	return append(c.out, chain.BlockDisconnected{Block: wtxmgr.Block{Hash: b.Hash, Height: b.Height}, Time: b.Time()})
+}
+
+// RepeatDisconnect queues a genuine BlockDisconnected notification a second
+// time (repeated delivery of the same fact). Returns false if there is none.
+func (c *Client) RepeatDisconnect(i int) bool {
+	c.mu.Lock()
+	if c.stopped || len(c.lastDisc) == 0 {
+		c.mu.Unlock()
+		return false
+	}
+	b := c.lastDisc[((i%len(c.lastDisc))+len(c.lastDisc))%len(c.lastDisc)]
+	// only while it is still true that the block is not on the client's chain
+	cur := c.node.BlockByHash(&c.best.Hash)
+	for cur != nil && cur.Height > b.Height {
+		cur = c.node.BlockByHash(&cur.Msg.Header.PrevBlock)
+	}
+	if cur != nil && cur.Hash == b.Hash {
+		c.mu.Unlock()
+		return false
+	}
+	c.mu.Unlock()
+	c.q.ChanIn() <- chain.BlockDisconnected{Block: wtxmgr.Block{Hash: b.Hash, Height: b.Height}, Time: b.Time()}
+	return true
 }
 
 // ---- harness controls
